@@ -657,10 +657,46 @@ def vectors(tier):
                         v[d2] = v2
                         add(tuple(v))
     if tier == "thorough":
-        # full product over the dimensions that interact (mode, in, out, key) x reduced mode numbers x extras
-        for v in itertools.product(MODES, INS, OUTS, KEYS, CMODES, HMODES, NS, EXTRAS):  # the full product of all value classes
-            add(v)
+        # the full product of all value classes (two representatives of the 20 two-letter mode clusters): millions of vectors, so it is
+        # never materialised - a lazy sequence, traversed along a fixed permutation (index * P mod N) so that a run cut by the
+        # deadline has touched every region of the product instead of only its first modes
+        modes = [m for m in MODES if not m.startswith("cluster2-")] + ["cluster2-de", "cluster2-he"]
+        return ProductSeq(seen, [modes, INS, OUTS, KEYS, CMODES, HMODES, NS, EXTRAS])
     return seen
+
+
+class ProductSeq:
+    """list-like: a materialised head followed by the lazily decoded full product of the dimensions, in permuted order"""
+
+    def __init__(self, head, dims):
+        self.head, self.dims = head, dims
+        self.n = 1
+        for d in dims:
+            self.n *= len(d)
+        self.p = 1000003
+        import math
+        while math.gcd(self.p, self.n) != 1:
+            self.p += 2
+
+    def __len__(self):
+        return len(self.head) + self.n
+
+    def __getitem__(self, i):
+        if i < len(self.head):
+            return self.head[i]
+        k = ((i - len(self.head)) * self.p) % self.n
+        out = []
+        for d in reversed(self.dims):
+            out.append(d[k % len(d)])
+            k //= len(d)
+        v = tuple(reversed(out))
+        if v[0] == "none" and all(x in ("absent", "none") for x in v[1:]):
+            return self.head[0]  # no argument at all = interactive mode (excluded): replaced by a base line
+        return v
+
+    def __iter__(self):
+        for i in range(len(self)):
+            yield self[i]
 
 
 def run(pid, tier, replay=None):
@@ -742,6 +778,9 @@ def run(pid, tier, replay=None):
             with cf.ThreadPoolExecutor(max_workers=c.NCPU) as ex:
                 pending = collections.deque()
                 for item in enumerate(vecs):
+                    if time.time() > deadline:  # stop submitting: the rest of a multi-million product is not even enumerated
+                        yield (item[0], item[1], ("__skipped__", "", []))
+                        break
                     pending.append(ex.submit(work, item))
                     if len(pending) >= 4 * c.NCPU:
                         yield pending.popleft().result()
@@ -763,7 +802,7 @@ def run(pid, tier, replay=None):
             outcomes["failure-without-diagnostic"] = outcomes.get("failure-without-diagnostic", 0) + 1
             viol.append({"key": "failure-without-diagnostic", "desc": "non-zero exit, but every line printed is one that successful runs print too: no diagnostic (%s)" % " ".join("%s=%s" % kv for kv in zip(DIMNAMES, vecs[i])),
                          "replay": {"vector": list(vecs[i]), "diag": 1}})
-        cov = {"evaluations": done, "distinct_nontrivial": len(set(vecs)), "rule": rule, "samples": samples, "outcomes": outcomes, "caps_hit": capped}
+        cov = {"evaluations": done, "distinct_nontrivial": len(set(vecs)) if isinstance(vecs, list) else (done if capped else len(vecs)), "rule": rule, "samples": samples, "outcomes": outcomes, "caps_hit": capped}
         fcov, fviol = io_fault_pass(exe, reftool, fx, workroot, tier)
         cov.update(fcov)
         cov["evaluations"] += fcov.get("io_fault_runs", 0)
